@@ -115,12 +115,14 @@ impl BufferTransformT for FlateDecode<'_> {
     }
 }
 
-// the paeth prediction algorithm
+// the paeth prediction algorithm (PNG specification, 9.4): the neighbour
+// closest to p = a + b - c, computed in a wider type so that nothing wraps.
 fn paeth(a: Wrapping<u8>, b: Wrapping<u8>, c: Wrapping<u8>) -> Wrapping<u8> {
-    let p = a + b - c;
-    let pa = if p > a { p - a } else { a - p };
-    let pb = if p > b { p - b } else { b - p };
-    let pc = if p > c { p - c } else { c - p };
+    let (ia, ib, ic) = (a.0 as i16, b.0 as i16, c.0 as i16);
+    // |p - a|, |p - b|, |p - c|
+    let pa = (ib - ic).abs();
+    let pb = (ia - ic).abs();
+    let pc = (ia + ib - 2 * ic).abs();
 
     // algorithm
     if pa <= pb && pa <= pc {
@@ -130,6 +132,27 @@ fn paeth(a: Wrapping<u8>, b: Wrapping<u8>, c: Wrapping<u8>) -> Wrapping<u8> {
     } else {
         c
     }
+}
+
+// the average prediction: floor((a + b) / 2), where the sum does not wrap.
+fn average(a: Wrapping<u8>, b: Wrapping<u8>) -> Wrapping<u8> {
+    Wrapping(((a.0 as u16 + b.0 as u16) / 2) as u8)
+}
+
+// The number of bytes in a row of samples, and in a pixel (at least 1).
+// None if the sample size is not one PDF allows, or if the sizes do not
+// fit a usize (such parameters cannot describe any actual data).
+fn predictor_geometry(
+    colors: usize, columns: usize, bitspercolumn: usize,
+) -> Option<(usize, usize)> {
+    if ![1, 2, 4, 8, 16].contains(&bitspercolumn) {
+        return None
+    }
+    let pixel_bits = colors.checked_mul(bitspercolumn)?;
+    let row_bits = columns.checked_mul(pixel_bits)?;
+    let row_bytes = row_bits / 8 + if row_bits % 8 == 0 { 0 } else { 1 };
+    let pixel_bytes = pixel_bits / 8 + if pixel_bits % 8 == 0 { 0 } else { 1 };
+    Some((row_bytes, std::cmp::max(1, pixel_bytes)))
 }
 
 pub struct LZWDecode<'a> {
@@ -238,16 +261,38 @@ fn flate_lzw_filter(
     let mut out_buffer = Vec::<u8>::new();
 
     if predictor == 1 {
-        Ok(ParseBuffer::new(decoded))
-    } else if predictor == 2 {
+        return Ok(ParseBuffer::new(decoded))
+    }
+    if predictor != 2 && !(10 ..= 15).contains(&predictor) {
+        let err = ErrorKind::TransformError(format!("PNG filter: unknown predictor {}", predictor));
+        return Err(locate_value(err, loc.loc_start(), loc.loc_end()))
+    }
+    let (row_bytes, bytes_per_pixel) = match predictor_geometry(colors, columns, bitspercolumn) {
+        Some(g) => g,
+        None => {
+            let err = ErrorKind::TransformError(format!(
+                "predictor: unusable parameters: colors {}, columns {}, bits per component {}",
+                colors, columns, bitspercolumn
+            ));
+            return Err(locate_value(err, loc.loc_start(), loc.loc_end()))
+        },
+    };
+
+    if predictor == 2 {
         // TIFF encoding
-        let row_length = columns * colors;
+        if bitspercolumn < 8 {
+            let err = ErrorKind::TransformError(format!(
+                "TIFF predictor: {} bits per component are not supported",
+                bitspercolumn
+            ));
+            return Err(locate_value(err, loc.loc_start(), loc.loc_end()))
+        }
+        let row_length = row_bytes;
         if row_length < 1 {
             // No data.
             return Ok(ParseBuffer::new([].to_vec()))
         }
 
-        let rows = decoded.len() / row_length;
         if decoded.len() % row_length != 0 {
             let err = ErrorKind::TransformError(format!(
                 "PNG filter: decoded size {} does not match multiple of expected row size {}",
@@ -256,33 +301,45 @@ fn flate_lzw_filter(
             ));
             return Err(locate_value(err, loc.loc_start(), loc.loc_end()))
         }
-        for i in 0 .. rows {
-            row_data.clear();
-
-            // get a row
-            for d in decoded
-                .iter()
-                .take(row_length * (i + 1))
-                .skip(row_length * i)
-            {
-                row_data.push(Wrapping(*d));
-            }
+        for row in decoded.chunks_exact(row_length) {
             // Predicts based on the sample to the left,
             // interleaved by colors.
-            for j in colors .. row_length {
-                row_data[j] = row_data[j] + row_data[j - colors];
-            }
-            // add to output
-            for &e in &row_data {
-                out_buffer.push(e.0);
+            if bitspercolumn == 8 {
+                row_data.clear();
+                row_data.extend(row.iter().map(|d| Wrapping(*d)));
+                for j in colors .. row_length {
+                    row_data[j] = row_data[j] + row_data[j - colors];
+                }
+                // add to output
+                for &e in &row_data {
+                    out_buffer.push(e.0);
+                }
+            } else {
+                // 16-bit samples, high-order byte first.
+                let mut samples: Vec<Wrapping<u16>> = row
+                    .chunks_exact(2)
+                    .map(|p| Wrapping(u16::from_be_bytes([p[0], p[1]])))
+                    .collect();
+                for j in colors .. samples.len() {
+                    samples[j] = samples[j] + samples[j - colors];
+                }
+                for s in &samples {
+                    out_buffer.extend_from_slice(&s.0.to_be_bytes());
+                }
             }
         }
         Ok(ParseBuffer::new(out_buffer))
-    } else if (10..=15).contains(&predictor) {
-        // PNG
-        let row_length = columns * colors + 1;
-        let rows = decoded.len() / row_length;
-        let bytes_per_pixel = bitspercolumn / 8;
+    } else {
+        // PNG: every row is preceded by a byte naming its filter.
+        let row_length = match row_bytes.checked_add(1) {
+            Some(n) => n,
+            None => {
+                let err = ErrorKind::TransformError(
+                    "PNG filter: row size does not fit the address space".to_string(),
+                );
+                return Err(locate_value(err, loc.loc_start(), loc.loc_end()))
+            },
+        };
 
         if row_length > decoded.len() {
             let err = ErrorKind::TransformError(
@@ -300,96 +357,41 @@ fn flate_lzw_filter(
         }
 
         let mut prev_row = vec![Wrapping(0); row_length];
-        for r in 0 .. rows {
+        for row in decoded.chunks_exact(row_length) {
             row_data.clear();
-            for d in decoded
-                .iter()
-                .take(row_length * (r + 1))
-                .skip(row_length * r)
-            {
-                row_data.push(Wrapping(*d))
+            row_data.extend(row.iter().map(|d| Wrapping(*d)));
+            if predictor == 15 {
+                let err = ErrorKind::TransformError(format!(
+                    "PNG filter: unknown predictor {}",
+                    predictor
+                ));
+                return Err(locate_value(err, loc.loc_start(), loc.loc_end()))
             }
-            match predictor {
-                10 => {
-                    // PNG None
-                    if row_data[0].0 != 0 {
-                        let err = ErrorKind::TransformError(format!(
-                            "PNG filter: row filter {} is not None for None predictor",
-                            row_data[0].0
-                        ));
-                        return Err(locate_value(err, loc.loc_start(), loc.loc_end()))
-                    }
-                },
-                11 => {
-                    // PNG Sub
-                    if row_data[0].0 != 1 {
-                        let err = ErrorKind::TransformError(format!(
-                            "PNG filter: row filter {} is not Sub for Sub predictor",
-                            row_data[0].0
-                        ));
-                        return Err(locate_value(err, loc.loc_start(), loc.loc_end()))
-                    }
-                    for k in 1 + bytes_per_pixel .. row_length {
-                        row_data[k] = row_data[k] + row_data[k - bytes_per_pixel]
-                    }
-                },
-                12 => {
-                    // PNG Up
-                    if row_data[0].0 != 2 {
-                        let err = ErrorKind::TransformError(format!(
-                            "PNG filter: row filter {} is not Up for Up predictor",
-                            row_data[0].0
-                        ));
-                        return Err(locate_value(err, loc.loc_start(), loc.loc_end()))
-                    }
-                    for j in 1 .. row_length {
-                        row_data[j] += prev_row[j];
-                    }
-                },
-                13 => {
-                    // PNG Avg
-                    if row_data[0].0 != 3 {
-                        let err = ErrorKind::TransformError(format!(
-                            "PNG filter: row filter {} is not Avg for Avg predictor",
-                            row_data[0].0
-                        ));
-                        return Err(locate_value(err, loc.loc_start(), loc.loc_end()))
-                    }
-                    for j in 1 .. 1 + bytes_per_pixel {
-                        row_data[j] += prev_row[j] / Wrapping(2);
-                    }
-                    for j in bytes_per_pixel .. row_length {
-                        let incr = (row_data[j - bytes_per_pixel] + prev_row[j]) / Wrapping(2);
-                        row_data[j] += incr
-                    }
-                },
-                14 => {
-                    if row_data[0].0 != 4 {
-                        let err = ErrorKind::TransformError(format!(
-                            "PNG filter: row filter {} is not Paeth for Paeth predictor",
-                            row_data[0].0
-                        ));
-                        return Err(locate_value(err, loc.loc_start(), loc.loc_end()))
-                    }
-                    // Paeth algorithm prediction.
-                    let mut a = Wrapping(0);
-                    let mut c = Wrapping(0);
-                    for j in 1 .. row_length {
-                        let b = prev_row[j];
-                        if j > bytes_per_pixel {
-                            a = row_data[j - bytes_per_pixel];
-                            c = prev_row[j - bytes_per_pixel];
-                        }
-                        row_data[j] = paeth(a, b, c);
-                    }
-                },
-                _ => {
-                    let err = ErrorKind::TransformError(format!(
-                        "PNG filter: unknown predictor {}",
-                        predictor
-                    ));
-                    return Err(locate_value(err, loc.loc_start(), loc.loc_end()))
-                },
+            // None, Sub, Up, Avg, Paeth are row filters 0 .. 4.
+            if row_data[0].0 as usize != predictor - 10 {
+                let err = ErrorKind::TransformError(format!(
+                    "PNG filter: row filter {} does not match predictor {}",
+                    row_data[0].0, predictor
+                ));
+                return Err(locate_value(err, loc.loc_start(), loc.loc_end()))
+            }
+            for j in 1 .. row_length {
+                // a: the corresponding byte of the pixel to the left,
+                // b: the byte above, c: the byte above and to the left;
+                // those outside the image are 0.
+                let (a, c) = if j > bytes_per_pixel {
+                    (row_data[j - bytes_per_pixel], prev_row[j - bytes_per_pixel])
+                } else {
+                    (Wrapping(0), Wrapping(0))
+                };
+                let b = prev_row[j];
+                row_data[j] += match predictor {
+                    10 => Wrapping(0),
+                    11 => a,
+                    12 => b,
+                    13 => average(a, b),
+                    _ => paeth(a, b, c),
+                };
             }
             // update prev row
             prev_row[.. row_length].clone_from_slice(&row_data[.. row_length]);
@@ -399,9 +401,6 @@ fn flate_lzw_filter(
             }
         }
         Ok(ParseBuffer::new(out_buffer))
-    } else {
-        let err = ErrorKind::TransformError(format!("PNG filter: unknown predictor {}", predictor));
-        Err(locate_value(err, loc.loc_start(), loc.loc_end()))
     }
 }
 
